@@ -89,13 +89,20 @@ Definition ce_judge := judge ce_model ce_oeqb ce_ok (fun _ => 0%N).
 Definition cch_in := (hctx * (list (N * N) * rstate * N * bool * N))%type.
 Definition cch_at (g : cfg) (x : cch_in) : cc_in := let '(fl, st, phase, retry, i) := snd x in (g, fl, st, phase, retry, i).
 Definition cch_model (x : cch_in) : cc_out := cc_model (cch_at (hctx_model (fst x)) x).
-Definition cch_ok (x : cch_in) (o : cc_out) : bool := cc_ok (cch_at (hctx_spec (fst x)) x) o.
+(* outside the hypothesis [cfg_ok] of C11_commit / C11_history_commit (the latest successfully fetched configuration does
+   not configure the destination — e.g. a successful poll answered with no chain config at all — or gives a chain
+   F = 0) no honest observation can be accepted by anybody: judged for model/implementation agreement only *)
+Definition cch_ok (x : cch_in) (o : cc_out) : bool :=
+  let '(_, _, _, _, i) := snd x in
+  negb (cfg_ok (hctx_spec (fst x)) i) || cc_ok (cch_at (hctx_spec (fst x)) x) o.
 Definition cch_judge := judge cch_model cc_oeqb cch_ok (fun _ => 0%N).
 
 Definition ceh_in := (hctx * (list (N * N) * rstate * N * N))%type.
 Definition ceh_at (g : cfg) (x : ceh_in) : ce_in := let '(fl, st, phase, i) := snd x in (g, fl, st, phase, i).
 Definition ceh_model (x : ceh_in) : ce_out := ce_model (ceh_at (hctx_model (fst x)) x).
-Definition ceh_ok (x : ceh_in) (o : ce_out) : bool := ce_ok (ceh_at (hctx_spec (fst x)) x) o.
+Definition ceh_ok (x : ceh_in) (o : ce_out) : bool :=
+  let '(_, _, _, i) := snd x in
+  negb (cfg_ok (hctx_spec (fst x)) i) || ce_ok (ceh_at (hctx_spec (fst x)) x) o.
 Definition ceh_judge := judge ceh_model ce_oeqb ceh_ok (fun _ => 0%N).
 
 (* the API sink of the history parts (judge shared with the other roles property) *)
